@@ -932,6 +932,11 @@ func validateAddr(addr string) error {
 			return errors.New("smtp: an address must not contain '<' or '>' outside a quoted string")
 		}
 	}
+	if quoted {
+		// Whatever follows the opening quote, a '>' included, only looked
+		// quoted: no receiver will read it that way.
+		return errors.New("smtp: unterminated quoted string in address")
+	}
 	return nil
 }
 
